@@ -244,7 +244,7 @@ var histPlans = map[string]*histPlan{
 		required: []string{"oracle/C09", "probe/C09/invert_zero"},
 		rule:     "one evaluation = one seeded history over 8-16 field.Element slots (all 20 Element operations; half of the runs biased to carry-free chains that maximise limbs), executed under the default (assembly) and the purego build; each of the nine C09 operations is compared with GF(p) arithmetic on the pre-state values, the 2^52 limb bound is checked on every written element; non-trivial = at least one of the nine operations checked; distinct = distinct value-level event-log hash"},
 	"C11": {level: "fault_enumeration", quickRuns: 800, thorRuns: 250000, chunk: 5, quickBudget: 60 * time.Second, thorBudget: 20 * time.Minute,
-		builds: []string{"default"},
+		builds: []string{"default", "purego"}, // the portable multiplication/squaring have their own read/write order
 		required: []string{"oracle/C11diff", "oracle/C11diff/Scalar.MultiplyAdd", "oracle/C11diff/Point.MultiScalarMult", "oracle/C11diff/Point.VarTimeMultiScalarMult",
 			"oracle/C11diff/Element.Select", "oracle/C11diff/Point.SetExtendedCoordinates", "oracle/C11diff/Point.Add", "oracle/C11diff/Element.Swap"},
 		rule: "one evaluation = one run: a seeded history prefix (alias pressure 0.6) followed by the exhaustive enumeration of every exported method x every set partition of {receiver} U {same-typed pointer arguments} (plus multi-scalar shapes: receiver at each index, repeated points/scalars, n=1..4) on operand values drawn from the evolved world; every call is checked by the bit-for-bit frame invariant, every aliased call is re-executed on private copies and compared as values; non-trivial = at least one aliased-vs-distinct comparison; distinct = distinct value-level event-log hash"},
